@@ -150,8 +150,15 @@ class AsyncTask(futures.FutureBase):
     def _computed(self):
         try:
             if self._generator is not None:
-                self._generator.close()
-                self._generator = None
+                generator, self._generator = self._generator, None
+                try:
+                    generator.close()
+                except Exception as e:
+                    # The task already has its outcome. An error raised by its with/finally
+                    # blocks while the closed generator unwinds has no consumer, and must not
+                    # unwind the scheduler loop (which would leave tasks on its stack).
+                    if _debug_options.DUMP_EXCEPTIONS:
+                        debug.dump_error(e)
             if _debug_options.COLLECT_PERF_STATS is True:
                 self.collect_perf_stats()
         finally:
